@@ -2,11 +2,18 @@
 props/C09/NOTES.md.
 
   1. audit + build coq/C09, re-check Props.v / Refuted.v.
-  2. harness cmd/c09 on the repository's working tree: C02-style histories on a real shard; paired queries
-     `select f(x)` (with / without exact-statistics hint, field filter, time bucket; range ends on and around file and
-     segment boundaries) vs the plain `select x`, both through the store-side reader the planner builds. DIRECT ORACLE:
-     combined partial results == f over the rows of the plain select whenever the statement's preconditions hold.
-  3. the Coq model's agg_rows (= build_stats) is evaluated on the same rows and compared with the shard's answers.
+  2. harness cmd/c09 on the repository's working tree: C02-style histories on a real shard.
+     a. paired queries `select f(x)[, g(y)..]` (with / without exact-statistics hint, field filter, time bucket, tag
+        filter; GROUP BY host / zone / nothing; ascending and descending; range ends on and around file, segment and
+        bucket boundaries) vs the plain `select x`, both through the store-side reader the planner builds. DIRECT ORACLE:
+        combined partial results == f over the rows of the plain select whenever the statement's preconditions hold.
+     b. every data file the history produces: stored chunk statistics and segment ranges vs the rows decoded from the
+        same segments; real pre-aggregation reads (Location.ReadData) of every function over boundary-biased ranges.
+     c. the memtable statistics builders on generated records.
+  3. the Coq model is evaluated on the same data: agg_rows on the rows of every query group; build_stats, the
+     hypotheses of the chunk theorems, chunk_partial_repaired / _current on every chunk; mem_stats_repaired / _current on
+     every memtable record. Model and Go oracle must agree everywhere; the variant comparison tells which variant of the
+     two repaired defects the working tree implements.
 """
 import json
 import os
@@ -19,20 +26,38 @@ PID = "C09"
 # chunk buffers; the export now copies them and 0 of ~400 such queries per run fail)
 FINDING_CT = "C09-firstlast-chunk-time"
 FINDING_ML = "C09-memtable-last-time"
-FN = {"count": 0, "sum": 1, "min": 2, "max": 3, "first": 4, "last": 5}
-STRING_FIELD = 3
+FINDING_DR = "C09-desc-firstlast-rowpath"
+FINDING_DS = "C09-desc-firstlast-shortcut"
+FINDING_DD = "C09-desc-dup-rowpath"
+ALL_FINDINGS = (FINDING_CT, FINDING_ML, FINDING_DR, FINDING_DS, FINDING_DD)
+FN = {"count": 0, "sum": 1, "min": 2, "max": 3, "first": 4, "last": 5, "mean": 6}
+KIND = {0: 0, 1: 1, 2: 2, 3: 3}  # field id -> column kind (integer, float, boolean, string)
 
 
 def explain(c, colgroup, open_ids):
     """which open finding explains the failing result `col:group` of check c (None = unexplained)"""
     ci, grp = colgroup.split(":", 1)
     call = c["calls"][int(ci)]
-    host = grp.split("/")[0]
+    gkey = grp.split("/")[0]
+    hosts = (c.get("group_hosts") or {}).get(gkey) or [gkey]
+    g = next((x for x in (c.get("groups") or []) if x["col"] == int(ci) and x["group"] == grp), None)
+    if c.get("desc") and not c["preagg"] and FINDING_DD in open_ids and any(h in (c.get("sig_dup") or []) for h in hosts):
+        # ORDER BY time DESC on the row path over a series with a cross-generation duplicate inside the range: the
+        # overwritten version is aggregated too (any function)
+        return FINDING_DD
+    if call["fn"] in ("first", "last") and c.get("desc"):
+        # ORDER BY time DESC: first()/last() return the value of another row
+        wrong_row = g is not None and not g["null"] and any(r["v"] == g["v"] for r in (g["rows"] or []))
+        if c["preagg"] and c.get("group_by") and g is not None and not g["null"] and FINDING_DS in open_ids:
+            return FINDING_DS     # (the row may even lie outside the time range)
+        if wrong_row and not c["preagg"] and FINDING_DR in open_ids:
+            return FINDING_DR
+        return None
     # first()/last() served by the shortcut where the range enters / leaves a multi-segment chunk
-    if FINDING_CT in open_ids and call["fn"] in ("first", "last") and c["preagg"] and host in (c.get("sig_chunk_time") or []):
+    if FINDING_CT in open_ids and call["fn"] in ("first", "last") and c["preagg"] and any(h in (c.get("sig_chunk_time") or []) for h in hosts):
         return FINDING_CT
     # last() of a multi-call shortcut statement where the memtable has a later row carrying only another selected field
-    if FINDING_ML in open_ids and call["fn"] == "last" and c["preagg"] and ("%s:%s" % (ci, host)) in (c.get("sig_mem_last") or []):
+    if FINDING_ML in open_ids and call["fn"] == "last" and c["preagg"] and any(("%s:%s" % (ci, h)) in (c.get("sig_mem_last") or []) for h in hosts):
         return FINDING_ML
     return None
 
@@ -42,23 +67,79 @@ TEXT = {
                 "another container inside the range loses (or wins) wrongly",
     FINDING_ML: "last() in a multi-aggregate statement served from statistics: the memtable's last value is stamped with the time of its last "
                 "ROW (which may carry only another field), so an older memtable value beats a newer value stored in a file",
+    FINDING_DR: "ORDER BY time DESC on the row path (hint / field filter / time bucket): the series-level first()/last() reducers are positional, "
+                "so first() returns the newest and last() the oldest value of the group / bucket",
+    FINDING_DD: "ORDER BY time DESC on the row path (hint / field filter / time bucket): a (series,time) stored in two flush generations is "
+                "aggregated twice - count/sum include the overwritten version, min/max/first/last may return it",
+    FINDING_DS: "ORDER BY time DESC with GROUP BY tag on the statistics shortcut: file reader and memtable builder compute positional first/last "
+                "on reversed data and the partial results are merged by time: first()/last() return the value of another row",
 }
+
+
+def opt_pair(null, v, t):
+    return "None" if null else "(Some (%s, %s))" % (coq_z(v), coq_z(t))
+
+
+def mrow(r):
+    return "(%s, %s)" % (coq_z(r["t"]), coq_list(["None" if x is None else "(Some %s)" % coq_z(x) for x in r["v"]]))
+
+
+def chunk_term(ch):
+    segs = coq_list([coq_list([mrow(r) for r in s]) for s in ch["segs"]])
+    ranges = coq_list(["(%s, %s)" % (coq_z(a), coq_z(b)) for a, b in ch["ranges"]])
+    sts = []
+    for s in ch["stats"] or []:
+        sts.append("(%d%%nat, %s, %s, %s, %s, %s)" % (
+            s["f"], coq_z(KIND[s["f"]]), coq_z(s["count"]),
+            "(Some %s)" % coq_z(s["sum"]) if s["hassum"] else "None",
+            opt_pair(not s["hasmm"], s["min"], s["mint"]), opt_pair(not s["hasmm"], s["max"], s["maxt"])))
+    reads = []
+    for r in ch["reads"] or []:
+        reads.append("(%s, %s, %d%%nat, %s, %s, %s)" % (coq_z(r["lo"]), coq_z(r["hi"]), r["f"], coq_z(KIND[r["f"]]), coq_z(FN[r["fn"]]),
+                                                      opt_pair(r["null"], r["v"], r["t"])))
+    return "(%s, %s, %s, %s)" % (segs, ranges, coq_list(sts), coq_list(reads))
+
+
+def mem_term(mc):
+    rows = coq_list([mrow(r) for r in mc["rows"]])
+    ms = []
+    for s in mc["stats"]:
+        ms.append("(%d%%nat, %s, %s, %s, %s, %s, %s, %s, %s)" % (
+            s["f"], coq_z(KIND[s["f"]]), "true" if s["set"] else "false", coq_z(s["count"]),
+            "(Some %s)" % coq_z(s["sum"]) if s["hassum"] else "None",
+            opt_pair(not s["hasmm"], s["min"], s["mint"]), opt_pair(not s["hasmm"], s["max"], s["maxt"]),
+            opt_pair(not s["set"] or s["firstt"] < 0, s["first"], s["firstt"]), opt_pair(not s["set"] or s["lastt"] < 0, s["last"], s["lastt"])))
+    return "(%s, %s)" % (rows, coq_list(ms))
+
+
+HDR = ("From Coq Require Import ZArith List Bool. From OG Require Import C09.Model C09.ChunkModel C09.Corr.\n"
+       "Import ListNotations. Open Scope Z_scope.\n")
+
+
+def parse_triples(o):
+    m = re.search(r"M\s*=\s*(.*?)\s*:\s*list", o, re.S)
+    if not m:
+        return None
+    return [(int(a), int(b), int(c)) for a, b, c in re.findall(r"\((\d+)(?:%nat)?,\s*(\d+)(?:%nat)?,\s*(\d+)(?:%nat)?\)", m.group(1))]
 
 
 def main(ck):
     ck.assumptions += [
-        "the store-side part of a statement is run as the planner builds it (LogicalPlanBuilder series/measurement plan, "
-        "LogicalReader, ChunkReader over shard.CreateCursor); the executor's upper aggregation stages are replaced by the "
-        "harness' combination of partial results (sum of counts/sums, min of mins, max of maxes, earliest first, latest last)",
-        "mean is checked as sum and count (the planner rewrites mean into sum/count)",
+        "the store-side part of a statement is run as the planner builds it (query schema by NewQuerySchemaWithSources, "
+        "LogicalPlanBuilder series/measurement plan, LogicalReader, ChunkReader over shard.CreateCursor); the executor's upper "
+        "aggregation stages are replaced by the harness' combination of partial results (sum of counts/sums, min of mins, max of "
+        "maxes, earliest first, latest last)",
+        "first / last mean the value with the smallest / greatest time whatever the ORDER BY (documented meaning, the executor's own "
+        "FirstReduce / LastReduce compare times); rows of several series with the same time: any of them is accepted",
+        "mean(x) is checked as the sum and count columns the reader ships for it",
         "max-rows-per-segment = 8 so that series span several segments; values are small integers / k/4 floats (exact sums)",
-        "queries group by host (one series per group), so first/last have no cross-series time ties",
-        "statements carry 1-3 aggregates, mostly over different fields (mean as the sum/count pair); every column is compared on its own",
+        "statements carry 1-3 aggregates; GROUP BY host (70 %), zone (two series per group, 20 %) or no tag (10 %); every column is compared on its own",
         "index visibility, compaction thresholds as in C02",
     ]
-    ck.cov["trusted_base"] = ["Coq 8.16.1 kernel + vm_compute (case evaluation, Examples, refutation witness)",
+    ck.cov["trusted_base"] = ["Coq 8.16.1 kernel + vm_compute (case evaluation, Examples, refutation witnesses)",
                               "Go harness cmd/c09 + internal/tsdrv, python driver props/C09/run.py",
-                              "engine/verif_export_c02.go, engine/verif_export_c09.go (thin wrappers)"]
+                              "engine/verif_export_c02.go, engine/verif_export_c09.go, engine/verif_export_c09_stats.go, "
+                              "engine/immutable/verif_export_c09.go (thin wrappers)"]
     ck.coq_audit(["C09"])
     ok = ck.coq_build(["C09/Corr.vo", "C09/Proofs.vo", "C09/ListSpec.vo", "C09/ChunkProofs.vo", "C09/BucketProofs.vo"])
     if ok:
@@ -79,14 +160,20 @@ def main(ck):
         rc, out = ck.run([binp, str(n)], timeout=3000, env={"VERIF_CORPUS": corpus})
         n += len([f for f in os.listdir(corpus) if f.endswith(".case")]) if os.path.isdir(corpus) else 0
     hs = [json.loads(l) for l in out.splitlines() if l.startswith('{"case"')]
+    mems = []
+    for l in out.splitlines():
+        if l.startswith('{"memcases"'):
+            mems = json.loads(l)["memcases"] or []
     if rc != 0 or len(hs) != n:
         ck.broken.append("harness c09 failed rc=%d histories=%d/%d: %s" % (rc, len(hs), n, out[-600:]))
         if not hs:
             return
     for h in [h for h in hs if h.get("crash")][:3]:
         ck.broken.append("harness c09: history %d aborted: %s" % (h["case"], h["crash"][:300]))
+    for h in [h for h in hs if h.get("chunk_err")][:3]:
+        ck.broken.append("harness c09: history %d: reading the stored statistics / chunks failed: %s" % (h["case"], h["chunk_err"][:300]))
 
-    # ---- model evaluation on every compared group
+    # ---- model evaluation: query groups
     groups = []   # (history idx, check idx, group idx, oracle_ok)
     terms = []
     for hi, h in enumerate(hs):
@@ -96,28 +183,58 @@ def main(ck):
             for gi, g in enumerate(c["groups"] or []):
                 rows = coq_list(["(%s, %s)" % (coq_z(r["t"]), coq_z(r["v"])) for r in (g["rows"] or [])])
                 got = "None" if g["null"] else "(Some %s)" % coq_z(g["v"])
-                terms.append("(%s, %s, %s)" % (coq_z(FN[g["fn"]]), rows, got))
+                terms.append("(%s, %s, %s, %s)" % (coq_z(FN[g["fn"]]), rows, got, coq_z(g.get("cnt", 0))))
                 groups.append((hi, ci, gi, g["want_ok"]))
-    model_bad = set()
-    if ok and terms:
-        shard = 1500
-        files = []
+    chunks = [(hi, k) for hi, h in enumerate(hs) for k in range(len(h.get("chunks") or []))]
+    files = []
+    shard = 1500
+    ngs = 0
+    if ok:
         for a in range(0, len(terms), shard):
-            txt = ("From Coq Require Import ZArith List Bool. From OG Require Import C09.Model C09.Corr.\n"
-                   "Import ListNotations. Open Scope Z_scope.\n"
-                   "Definition cases : list (Z * list (Z * Z) * option Z) := [\n%s\n].\n"
+            txt = (HDR + "Definition cases : list (Z * list (Z * Z) * option Z * Z) := [\n%s\n].\n"
                    "Definition M := Eval vm_compute in mismatches cases.\nPrint M.\n") % ";\n".join(terms[a:a + shard])
             files.append(("c09cases%d" % (a // shard), txt))
-        outs = ck.coq_eval_many(files, timeout=600)
+        ngs = len(files)
+        cshard = 60
+        for a in range(0, len(chunks), cshard):
+            txt = (HDR + "Definition cases : list chunk_case := [\n%s\n].\n"
+                   "Definition M := Eval vm_compute in flat_chunks cases.\nPrint M.\n") % ";\n".join(chunk_term(hs[hi]["chunks"][k]) for hi, k in chunks[a:a + cshard])
+            files.append(("c09chunks%d" % (a // cshard), txt))
+        ncs = len(files) - ngs
+        mshard = 400
+        for a in range(0, len(mems), mshard):
+            txt = (HDR + "Definition cases : list mem_case := [\n%s\n].\n"
+                   "Definition M := Eval vm_compute in flat_mem cases.\nPrint M.\n") % ";\n".join(mem_term(m) for m in mems[a:a + mshard])
+            files.append(("c09mem%d" % (a // mshard), txt))
+    model_bad = set()
+    chunk_res = {}   # (global chunk idx) -> {kind: set(idx)}
+    mem_res = {}
+    model_ok = ok
+    if ok and files:
+        outs = ck.coq_eval_many(files, timeout=900)
         for k, (rc2, o) in enumerate(outs):
-            m = re.search(r"M\s*=\s*(.*?)\s*:\s*list", o, re.S)
-            if rc2 != 0 or not m:
-                ck.broken.append("C09 model evaluation failed on shard %d: %s" % (k, o[-500:]))
-                continue
-            for x in re.findall(r"(\d+)(?:%nat)?", m.group(1)):
-                model_bad.add(k * shard + int(x))
-    elif not ok:
-        model_bad = None
+            if k < ngs:
+                m = re.search(r"M\s*=\s*(.*?)\s*:\s*list", o, re.S)
+                if rc2 != 0 or not m:
+                    ck.broken.append("C09 model evaluation failed on group shard %d: %s" % (k, o[-500:]))
+                    model_ok = False
+                    continue
+                for x in re.findall(r"(\d+)(?:%nat)?", m.group(1)):
+                    model_bad.add(k * shard + int(x))
+            else:
+                tr = parse_triples(o) if rc2 == 0 else None
+                if tr is None:
+                    ck.broken.append("C09 model evaluation failed on %s: %s" % (files[k][0], o[-500:]))
+                    model_ok = False
+                    continue
+                if k < ngs + ncs:
+                    base = (k - ngs) * cshard
+                    for a, kind, i in tr:
+                        chunk_res.setdefault(base + a, {}).setdefault(kind, set()).add(i)
+                else:
+                    base = (k - ngs - ncs) * mshard
+                    for a, kind, i in tr:
+                        mem_res.setdefault(base + a, {}).setdefault(kind, set()).add(i)
 
     # ---- verdicts
     # findings of this property that are in the per-property fragment but not (yet) merged into known_findings.json
@@ -125,11 +242,20 @@ def main(ck):
     if os.path.exists(frag):
         have = {f["id"] for f in ck.findings}
         ck.findings += [f for f in json.load(open(frag))["findings"] if f["property"] == PID and f["id"] not in have]
-    open_ids = {fid for fid in (FINDING_CT, FINDING_ML) if ck.match_finding(fid) is not None}
+    open_ids = {fid for fid in ALL_FINDINGS if ck.match_finding(fid) is not None}
     viol, checks, compared, skipped = 0, 0, 0, 0
-    known = {FINDING_CT: 0, FINDING_ML: 0}
-    eligible = {FINDING_CT: 0, FINDING_ML: 0}
-    modes, ncalls = {}, {}
+    known = {f: 0 for f in ALL_FINDINGS}
+    eligible = {f: 0 for f in ALL_FINDINGS}
+    modes, ncalls, shapes = {}, {}, {}
+
+    def report(kind, what, detail):
+        nonlocal viol
+        viol += 1
+        if viol <= 4:
+            d = {"kind": kind, "what": what}
+            d.update(detail)
+            ck.violation(d)
+
     for hi, h in enumerate(hs):
         for c in h.get("checks") or []:
             checks += 1
@@ -137,24 +263,27 @@ def main(ck):
             skipped += bool(c.get("skipped"))
             mode = "hint" if c["hint"] else "filter" if c["filter"] else "bucket" if c["bucket"] else "shortcut" if c["preagg"] else "rows"
             ncalls[str(len(c["calls"]))] = ncalls.get(str(len(c["calls"])), 0) + 1
+            shape = "group_by=%s%s%s" % (c.get("group_by") or "-", ",desc" if c.get("desc") else "", ",tagfilter" if c.get("tag_filter") else "")
+            shapes[shape] = shapes.get(shape, 0) + 1
+            fl = [cl["fn"] for cl in c["calls"] if cl["fn"] in ("first", "last")]
             for call in c["calls"]:
                 modes["%s/%s" % (call["fn"], mode)] = modes.get("%s/%s" % (call["fn"], mode), 0) + 1
-            eligible[FINDING_CT] += bool(c["preagg"] and c.get("sig_chunk_time"))
-            eligible[FINDING_ML] += bool(c["preagg"] and c.get("sig_mem_last"))
+            eligible[FINDING_CT] += bool(c["preagg"] and c.get("sig_chunk_time") and not c.get("desc"))
+            eligible[FINDING_ML] += bool(c["preagg"] and c.get("sig_mem_last") and not c.get("desc"))
+            eligible[FINDING_DR] += bool(c.get("desc") and fl and not c["preagg"] and c["compared"])
+            eligible[FINDING_DS] += bool(c.get("desc") and fl and c["preagg"] and c["compared"] and c.get("group_by"))
+            eligible[FINDING_DD] += bool(c.get("desc") and not c["preagg"] and c["compared"] and c.get("sig_dup"))
             if not c.get("fail"):
                 continue
-            why = [explain(c, cg, open_ids) for cg in (c.get("fail_cols") or [])] if not c["fail"].endswith("error") else [None]
+            why = [explain(c, cg, open_ids) for cg in (c.get("fail_cols") or [])] if c.get("fail_cols") else [None]
             if why and all(w is not None for w in why):
                 for w in set(why):
                     known[w] += 1
                     ck.known_finding(w, TEXT[w])
             else:
-                viol += 1
-                if viol <= 3:
-                    slim = {k: h[k] for k in ("case", "nser", "nodup_mode", "ops")}
-                    ck.violation({"kind": "direct-oracle", "what": c["fail"], "check": c, "history": slim, "dup_history": h["dup"],
-                                  "explained": why})
-    if model_bad is not None:
+                slim = {k: h[k] for k in ("case", "nser", "nodup_mode", "ops")}
+                report("direct-oracle", c["fail"], {"check": c, "history": slim, "dup_history": h["dup"], "explained": why})
+    if model_ok:
         for idx, (hi, ci, gi, want_ok) in enumerate(groups):
             bad = idx in model_bad
             if bad == want_ok:  # model and Go oracle disagree about this group
@@ -163,9 +292,89 @@ def main(ck):
                                  % (hs[hi]["case"], c["sql"], c["groups"][gi]["group"]))
                 ck.nofail_detail = {"kind": "correspondence", "check": c, "group": c["groups"][gi]}
                 break
+
+    # ---- stored statistics and chunk reads
+    nreads, nstats, nchunks_multi, time_only = 0, 0, 0, 0
+    reads_by = {}
+    variant_reader = {"repaired": 0, "current": 0}   # reads that tell the two variants apart and match this one
+    for gidx, (hi, k) in enumerate(chunks):
+        h, ch = hs[hi], hs[hi]["chunks"][k]
+        res = chunk_res.get(gidx, {})
+        nstats += len(ch.get("stats") or [])
+        nchunks_multi += len(ch["segs"]) >= 2
+        time_only += bool(ch.get("time_only"))
+        slimch = {x: ch[x] for x in ("seq", "level", "order", "series", "segs", "ranges", "stats")}
+        ctx = {"history_case": h["case"], "chunk": slimch, "history": {x: h[x] for x in ("case", "nser", "nodup_mode", "ops")}}
+        if model_ok and 0 in res:
+            ck.broken.append("C09 chunk theorems: their hypotheses (non-empty segments, strictly ascending times, stored segment ranges = "
+                             "first/last time of the segment) do not hold for file seq %d series %d of history %d" % (ch["seq"], ch["series"], h["case"]))
+            ck.nofail_detail = ctx
+        go_bad = bool(ch.get("stat_fail"))
+        if go_bad:
+            report("stored-statistics", "the chunk statistics stored in the data file differ from the rows decoded from its segments: " + ch["stat_fail"], ctx)
+        if model_ok and bool(res.get(1)) != go_bad and not (0 in res):
+            ck.broken.append("correspondence C09: model build_stats and the harness disagree about the stored statistics of file seq %d series %d "
+                             "of history %d (model mismatches %s, harness: %s)" % (ch["seq"], ch["series"], h["case"], sorted(res.get(1, [])), ch.get("stat_fail")))
+            ck.nofail_detail = ctx
+        for ri, r in enumerate(ch.get("reads") or []):
+            nreads += 1
+            key = "%s/%s%s" % (r["fn"], "asc" if r["asc"] else "desc", "/multiseg" if len(ch["segs"]) >= 2 else "")
+            reads_by[key] = reads_by.get(key, 0) + 1
+            rep_bad, cur_bad = ri in res.get(2, ()), ri in res.get(3, ())
+            rctx = dict(ctx, read=r)
+            if not r["asc"] and r["fn"] in ("first", "last"):
+                eligible[FINDING_DS] += 1
+                if not r["ok"]:
+                    if FINDING_DS in open_ids:
+                        known[FINDING_DS] += 1
+                        ck.known_finding(FINDING_DS, TEXT[FINDING_DS])
+                    else:
+                        report("chunk-read", "pre-aggregation read of %s under DESC: %s" % (r["fn"], r.get("why")), rctx)
+                continue
+            if model_ok and rep_bad != cur_bad:
+                variant_reader["current" if rep_bad else "repaired"] += 1
+            if model_ok and rep_bad and not cur_bad and r["fn"] in ("first", "last"):
+                # the working tree implements the pre-4c0ceca reader (chunk time instead of segment time)
+                if FINDING_CT in open_ids:
+                    known[FINDING_CT] += 1
+                    ck.known_finding(FINDING_CT, TEXT[FINDING_CT])
+                else:
+                    report("chunk-read", "FirstLastReader implements the `_current` variant (C09-firstlast-chunk-time is back): %s(%s) over %d..%d: %s"
+                           % (r["fn"], r["f"], r["lo"], r["hi"], r.get("why")), rctx)
+                continue
+            if not r["ok"]:
+                report("chunk-read", "pre-aggregation read %s(field %d) over %d..%d of one chunk: %s" % (r["fn"], r["f"], r["lo"], r["hi"], r.get("why")), rctx)
+            if model_ok and rep_bad == r["ok"]:
+                ck.broken.append("correspondence C09: chunk_partial_repaired and the harness oracle disagree on a pre-aggregation read "
+                                 "(history %d file seq %d series %d %s field %d %d..%d)" % (h["case"], ch["seq"], ch["series"], r["fn"], r["f"], r["lo"], r["hi"]))
+                ck.nofail_detail = rctx
+
+    # ---- memtable builders
+    variant_mem = {"repaired": 0, "current": 0}
+    for mi, mc in enumerate(mems):
+        res = mem_res.get(mi, {})
+        rep_bad, cur_bad = bool(res.get(1)), bool(res.get(2))
+        mctx = {"memcase": mc}
+        if model_ok and 0 in res:
+            ck.broken.append("C09 memtable case %d: generated record is not in ascending time order" % mi)
+        if model_ok and rep_bad != cur_bad:
+            variant_mem["current" if rep_bad else "repaired"] += 1
+        if model_ok and rep_bad and not cur_bad:
+            if FINDING_ML in open_ids:
+                known[FINDING_ML] += 1
+                ck.known_finding(FINDING_ML, TEXT[FINDING_ML])
+            else:
+                report("memtable-statistics", "the memtable statistics builder implements the `_current` variant (C09-memtable-last-time is back): "
+                       + str(mc.get("why")), mctx)
+            continue
+        if not mc["ok"]:
+            report("memtable-statistics", "memtable statistics differ from the functions over the record's rows: " + str(mc.get("why")), mctx)
+        if model_ok and rep_bad == mc["ok"]:
+            ck.broken.append("correspondence C09: mem_stats_repaired and the harness oracle disagree on memtable case %d" % mi)
+            ck.nofail_detail = mctx
     for fid in open_ids:
         if known[fid] == 0 and eligible[fid] > 0:
-            ck.notes.append("open finding %s did not reproduce on %d eligible queries: stale (tree looks repaired)" % (fid, eligible[fid]))
+            ck.notes.append("open finding %s did not reproduce on %d eligible queries/reads: stale (tree looks repaired)" % (fid, eligible[fid]))
 
     # ---- coverage
     nontriv = set()
@@ -184,10 +393,19 @@ def main(ck):
                       "duplicate) and that were compared with the rows of the plain select; non-trivial = compared query with a group of "
                       ">= 2 rows on a shard holding >= 2 files or a series with >= 2 segments; distinct = (history, statement)")
     ck.cov["query_histogram(fn/path)"] = modes
+    ck.cov["statement_shapes"] = shapes
     ck.cov["max_segments_histogram"] = segs
     ck.cov["histories_with_cross_generation_dup"] = sum(1 for h in hs if h.get("dup"))
     ck.cov["model_groups_evaluated"] = len(groups)
-    ck.cov["traces_validated_against_impl"] = len(groups) - (len(model_bad) if model_bad else 0)
+    ck.cov["stored_statistics"] = {"chunks(file x series)": len(chunks), "chunks_with_>=2_segments": nchunks_multi, "column_statistics_compared": nstats,
+                                   "chunks_with_boolean_min/max_time_observation": time_only}
+    ck.cov["chunk_reads"] = {"total": nreads, "by_fn/order": reads_by, "variant_distinguishing_reads_matching": variant_reader}
+    ck.cov["memtable_cases"] = {"total": len(mems), "variant_distinguishing_cases_matching": variant_mem}
+    ck.cov["traces_validated_against_impl"] = (len(groups) - (len(model_bad) if model_bad else 0)) + nreads + nstats + len(mems)
     ck.cov["known_finding_queries"] = known
     ck.cov["calls_per_statement"] = ncalls
     ck.cov["samples"] = [c["sql"] for h in hs[:3] for c in (h.get("checks") or [])[:2]]
+    if time_only:
+        ck.notes.append("observation (not a failure of C09): %d chunks store a boolean column's min/max TIME that is not the time of the first "
+                        "row carrying that value (BooleanPreAgg.addValues indexes times by value position, ignoring nulls); no query value "
+                        "depends on it" % time_only)
